@@ -1,0 +1,105 @@
+//go:build verif
+
+package engine
+
+// Additions to the verification facade for C01 / C02 (/verif): the WAL sync interval of an open
+// shard, and a dump with a row limit pushed into the series cursors.
+
+import (
+	"context"
+	"fmt"
+	"runtime/debug"
+	"time"
+
+	"github.com/openGemini/openGemini/engine/executor"
+	"github.com/openGemini/openGemini/lib/util/lifted/influx/influxql"
+	"github.com/openGemini/openGemini/lib/util/lifted/influx/query"
+)
+
+// SetWalSyncInterval changes the configuration item data.wal-sync-interval of the open shard's
+// WAL writers (0 = every append is followed by Sync before the write is acknowledged).
+func (v *VerifShard) SetWalSyncInterval(d time.Duration) {
+	w := v.sh.wal
+	w.mu.Lock()
+	defer w.mu.Unlock()
+	for i := range w.logWriter {
+		lw := &w.logWriter[i]
+		lw.syncMu.Lock()
+		lw.SyncInterval = d
+		lw.syncMu.Unlock()
+	}
+}
+
+// DumpLimit is Dump with LIMIT / OFFSET in the query options: the engine then wraps every series
+// cursor into a limit cursor (engine/limit_cursor.go) that stops after limit+offset rows of that
+// series; the cut by offset happens above the storage layer and is not applied here.
+func (v *VerifShard) DumpLimit(mst string, fields []VerifField, tmin, tmax int64, asc bool, limit, offset int) (rows []VerifRow, err error) {
+	defer func() {
+		if r := recover(); r != nil {
+			err = fmt.Errorf("panic while reading: %v\n%s", r, debug.Stack())
+		}
+	}()
+	var aux []influxql.VarRef
+	var qf influxql.Fields
+	var names []string
+	for _, f := range fields {
+		aux = append(aux, influxql.VarRef{Val: f.Name, Type: f.Type})
+	}
+	for i := range aux {
+		qf = append(qf, &influxql.Field{Expr: &aux[i]})
+		names = append(names, aux[i].Val)
+	}
+	opt := &query.ProcessorOptions{
+		Name:        mst,
+		Ascending:   asc,
+		FieldAux:    aux,
+		MaxParallel: 1,
+		ChunkSize:   1024,
+		StartTime:   tmin,
+		EndTime:     tmax,
+		Limit:       limit,
+		Offset:      offset,
+	}
+	schema := executor.NewQuerySchema(qf, names, opt, nil)
+	info, err := v.sh.CreateCursor(context.Background(), schema)
+	if err != nil {
+		return nil, err
+	}
+	if info == nil {
+		return nil, nil
+	}
+	defer info.Unref()
+	for _, cur := range info.GetCursors() {
+		gc, ok := cur.(*groupCursor)
+		if !ok {
+			_ = cur.Close()
+			return nil, fmt.Errorf("unexpected cursor type %T", cur)
+		}
+		for i := range gc.tagSetCursors {
+			ts, ok := gc.tagSetCursors[i].(*tagSetCursor)
+			if !ok {
+				return nil, fmt.Errorf("unexpected tag-set cursor type %T", gc.tagSetCursors[i])
+			}
+			for _, kc := range ts.keyCursors {
+				if limit+offset > 0 {
+					if _, isLimit := kc.(*limitCursor); !isLimit {
+						return nil, fmt.Errorf("limit %d offset %d: series cursor is a %T, not a limit cursor", limit, offset, kc)
+					}
+				}
+				for {
+					rec, sinfo, e := kc.Next()
+					if e != nil {
+						_ = cur.Close()
+						return nil, e
+					}
+					if rec == nil || rec.RowNums() == 0 {
+						break
+					}
+					rows = appendVerifRows(rows, rec, string(sinfo.GetSeriesKey()), fields)
+				}
+			}
+		}
+		_ = cur.Close()
+	}
+	return rows, nil
+}
